@@ -177,7 +177,21 @@ class VariableBoundVisitor(ModelVisitor):
                 
             propagator = None
                 
-            if lhs_bounds is not None and rhs_bounds is not None:
+            if lhs_bounds is not None and rhs_bounds is not None and (
+                lhs_is_nonrand or rhs_is_nonrand):
+                # A field that is not random in this call acts as a 
+                # constant: it contributes its value, not its type's range
+                if rhs_is_nonrand and not lhs_is_nonrand:
+                    propagator = self.lhsvar_rhsnre_propagator(
+                        lhs_bounds, 
+                        e.op, 
+                        e.rhs)
+                elif lhs_is_nonrand and not rhs_is_nonrand:
+                    propagator = self.lhsnre_rhsvar_propagator(
+                        e.lhs, 
+                        e.op, 
+                        rhs_bounds)
+            elif lhs_bounds is not None and rhs_bounds is not None:
                 # Two-sided relationship involving fields
                 propagator = self.lhsvar_rhsvar_propagator(
                     lhs_bounds, 
